@@ -577,7 +577,9 @@ ppl_io_get_variable_output_function(ppl_io_variable_output_function_type** pp);
   The preferred length for all the lines but the first one.
 
   \return
-  The wrapped string in a malloc-allocated buffer.
+  The wrapped string in a malloc-allocated buffer;
+  a null pointer if an error occurred (in particular, memory exhaustion):
+  in that case the registered error handler, if any, has been called.
 */
 char*
 ppl_io_wrap_string(const char* src,
